@@ -96,6 +96,8 @@ def gen_cases(tier, seed):
     n = 40 if tier == "quick" else 600
     for k in range(n):
         cases.append({"id": "docset-%d" % k, "sig": ["docset", k], "kind": "docset", "k": k})
+    for k in range(8 if tier == "quick" else 80):
+        cases.append({"id": "reload-%d" % k, "sig": ["reload", k], "kind": "reload", "k": k})
     for variant in ("valid", "tampered", "wrong-cert", "unsigned-with-cert", "signed-no-cert", "wrapped-root"):
         for wrapped in (0, 1):
             cases.append({"id": "signed-%s-%s" % (variant, "entities" if wrapped else "entity"), "sig": ["signed", variant, wrapped], "kind": "signed",
@@ -126,25 +128,59 @@ def decl_services(e, role, service):
 
 
 def run_docset(case, ctx, viol, counters, sigs):
-    from saml2_tophat import mdstore
     rng = random.Random("%s/%s" % (ctx.seed, case["id"]))
     clock.install()
     clock.set_now(T0)
     sources = gen_docset(rng)
     store = new_store()
-    loaded = []
     for si, src in enumerate(sources):
         xml = render(src)
         try:
             store.imp([{"class": "saml2_tophat.mdstore.InMemoryMetaData", "metadata": [(xml,)]}])
-            ok = True
         except Exception as exc:
-            ok = False
             counters["load_raised:" + type(exc).__name__] = counters.get("load_raised:" + type(exc).__name__, 0) + 1
-        doc_expired = src["wrapped"] and src["valid_until"] == "past"
-        if ok and doc_expired and any(e["eid"] in store.keys() for e in src["entities"]):
-            pass  # judged per entity below
-        loaded.append(ok)
+    compare(case, store, sources, viol, counters, sigs)
+    clock.set_now(None)
+
+
+def run_reload(case, ctx, viol, counters, sigs):
+    """a long-lived store whose source file is replaced and loaded again: lookups made before must not survive the refresh"""
+    import os
+    rng = random.Random("%s/%s" % (ctx.seed, case["id"]))
+    clock.install()
+    clock.set_now(T0)
+    path = os.path.join(ctx.scratch, "reload-%s.xml" % case["k"])
+    store = new_store()
+    generations = []
+    for g in range(3):
+        ids = rng.sample(POOL[:5], rng.randint(1, 4))
+        src = {"entities": [gen_entity(rng, e, "g%d" % g) for e in ids], "wrapped": True, "valid_until": rng.choice([None, "future"])}
+        for e in src["entities"]:
+            if e["valid_until"] == "past":
+                e["valid_until"] = None
+        generations.append(src)
+    for g, src in enumerate(generations):
+        with open(path, "w") as f:
+            f.write(render(src))
+        try:
+            store.load("local", path)
+        except Exception as exc:
+            counters["load_raised:" + type(exc).__name__] = counters.get("load_raised:" + type(exc).__name__, 0) + 1
+            continue
+        before = len(viol)
+        compare(dict(case, id="%s/generation-%d" % (case["id"], g)), store, [src], viol, counters, sigs, tag="reload")
+        if len(viol) > before:
+            for v in viol[before:]:
+                if g > 0:
+                    v["key"] = "C16/stale-answer-after-metadata-reload"
+            break
+        counters["reloads"] = counters.get("reloads", 0) + (1 if g else 0)
+    os.unlink(path)
+    clock.set_now(None)
+
+
+def compare(case, store, sources, viol, counters, sigs, tag=None):
+    from saml2_tophat import mdstore
     # model: per entity id the list of admissible declarations (one per loaded source that may serve it)
     model = {}
     for si, src in enumerate(sources):
@@ -163,7 +199,7 @@ def run_docset(case, ctx, viol, counters, sigs):
         for e in src["entities"]:
             if e["eid"] not in model:
                 expired_only.add(e["eid"])
-    shape = "%d-sources" % len(sources)
+    shape = tag or ("%d-sources" % len(sources))
 
     def bad(key, what):
         viol.append({"key": key, "what": "%s: %s" % (case["id"], what), "detail": {"sources": sources}})
@@ -295,7 +331,6 @@ def run_docset(case, ctx, viol, counters, sigs):
         may = set(e for e, ds in model.items() if any(d.get(role) for d in ds))
         if not (must <= got <= may):
             bad("C16/with_descriptor-differs", "%s -> %r, model must %r may %r" % (descr, sorted(got), sorted(must), sorted(may)))
-    clock.set_now(None)
 
 
 def fed_pem(cert_text):
@@ -437,6 +472,8 @@ def run_case(case, ctx):
     viol, counters, sigs = [], {}, set()
     if case["kind"] == "docset":
         run_docset(case, ctx, viol, counters, sigs)
+    elif case["kind"] == "reload":
+        run_reload(case, ctx, viol, counters, sigs)
     elif case["kind"] == "signed":
         run_signed(case, ctx, viol, counters, sigs)
     else:
@@ -455,7 +492,7 @@ def finalize(cases, results, tier, extras):
         for k, v in r.get("counters", {}).items():
             tot[k] = tot.get(k, 0) + v
     inc = []
-    for need in ("service_lookups", "cert_lookups", "signed_loads", "roundtrip_lookups"):
+    for need in ("service_lookups", "cert_lookups", "signed_loads", "roundtrip_lookups", "reloads"):
         if not tot.get(need):
             inc.append("counter %s is zero" % need)
     return {"inconclusive": inc, "coverage": {"observations": {k: v for k, v in tot.items() if k.startswith("observation:") or k.startswith("load_raised")}}}
